@@ -315,11 +315,16 @@ def judge(case, got):
                  'observed_equals_applications': k_found,
                  'observed': {p: observed[p][:30] for p in observed},
                  'expected': {p: bag_of(exact[p])[:30] for p in observed}})
-  if case['iterative'] and k_found is not None:
+  if case['iterative']:
     g, apps = predicted_iterative_apps(len(sh.members) + sh.aux(), depth)
-    if g > depth + 1 and k_found == apps:
-      detail['ignition'] = g
-      return 'known:iterative-small-depth', detail
+    if g > depth + 1:
+      # the known small-depth defect: the rows are those of `apps` applications (the data may saturate earlier, so
+      # the first iterate that equals the observation can be smaller than `apps`)
+      at_apps = iterate_T(sh, apps)
+      if all(observed[p] == bag_of(at_apps[p]) for p in observed):
+        detail['ignition'] = g
+        detail['predicted_applications'] = apps
+        return 'known:iterative-small-depth', detail
   return 'bad', detail
 
 
